@@ -54,6 +54,7 @@ LINES = {
     'AGE': ('eq', 'ag', 't-10. + x'),            # arithmetic on the time axis that looks like the tail of a lag spelling
     'AGK': ('eq', 'ak', '2*k-1 + y'),
     'TU': ('eq', 't', '1950. + k'),              # user-supplied time axis
+    'CAPT': ('eq', 'T', '.2*x'),                 # taxes: differs from the time variable only by case
     'MT': ('param', 'MaxTime', '2'),
     'ET': ('param', 'Err_Tolerance', '1e-6'),
     'C0': ('pure', PURE_COMMENTS[0], ''),
@@ -273,7 +274,7 @@ def endogenous_sets(tier):
     sets = [base[:n]]
     sets.append(['S1', 'S2', 'Y0', 'ICY0', 'K10', 'MT'][:n])
     sets.append(['S1', 'S2', 'T', 'LAGT', 'ET', 'MT'][:n])
-    sets.append(['S1', 'S2', 'C1', 'BAD1', 'C2', 'MT'][:n])
+    sets.append(['S1', 'S2', 'C1', 'BAD1', 'CAPT', 'MT'][:n])
     sets.append(['S1', 'S2', 'BAD2', 'C3', 'C5', 'BLANK'][:n] + ['MT'])
     sets.append(['S1', 'S2', 'BAD3', 'IC', 'ET', 'LAG'][:n])       # no MaxTime line: the horizon stays at its default 0
     sets.append(['S1', 'S2', 'BAD4', 'BAD5', 'BAD6', 'MT'][:n] + (['MT'] if n < 6 else []))
